@@ -320,6 +320,7 @@ func (db *DB) OpenTransaction() (*Transaction, error) {
 	// Flush current memdb.
 	if db.mem != nil && db.mem.Len() != 0 {
 		if _, err := db.rotateMem(0, true); err != nil {
+			<-db.writeLockC
 			return nil, err
 		}
 	} else if fm := db.getFrozenMem(); fm != nil {
@@ -328,12 +329,14 @@ func (db *DB) OpenTransaction() (*Transaction, error) {
 		// recorded) ahead of older writes that only live in a frozen memdb.
 		fm.decref()
 		if err := db.compTriggerWait(db.mcompCmdC); err != nil {
+			<-db.writeLockC
 			return nil, err
 		}
 	}
 
 	// Wait compaction when certain threshold reached.
 	if err := db.waitCompaction(); err != nil {
+		<-db.writeLockC
 		return nil, err
 	}
 
